@@ -9,13 +9,14 @@ TEXT = {
     "C18": dict(
         level_text="Bounded-exhaustive exploration: every vector over tie-rich real and complex alphabets up to length 7 (quick 6/5) through the real "
                    "argsort/SortEigenvalue code under ASan+UBSan, each result judged by a permutation/monotonicity/BothEnds-prefix oracle; plus random long "
-                   "vectors. Exhaustive over the stated finite box, sampled beyond it.",
+                   "vectors; and every one of the nine rules as selection and as sorting argument of six solver classes (undefined ones must be rejected). Exhaustive over the stated finite box, sampled beyond it.",
         design_ref="DESIGN.md section 3, C18",
         level_note=NOTE_COMMON,
         technique="runtime oracle over exhaustively enumerated inputs (ASan+UBSan build)"),
     "C19": dict(
         level_text="Exhaustive sweep of all 2^31-2 generator states and all library seed forms against an independent 64-bit reference of the "
                    "Park-Miller recurrence (plain build; subsampled again under ASan+UBSan), orbit length, draw ranges for six scalar types, "
+                   "the stream of one generator object under mixed groupings of random() / random_vec() calls, a third build with g++ (behaviour the standard leaves to the compiler), "
                    "plus a purity monitor (thread / process / heap-history digests, ltrace+strace showing no RNG, clock or entropy call).",
         design_ref="DESIGN.md section 3, C19",
         level_note=NOTE_COMMON + " Platform independence is only observed on this machine.",
@@ -67,7 +68,7 @@ TEXT = {
     "C06": dict(
         level_text="Exploration: history checker comparing, bit for bit, the observed init(v); compute(args) on a fresh solver, on a solver reused after a random pre-history (incl. non-converging and "
                    "throwing computes - thrown at once, and thrown late: an unsupported sorting rule is rejected only after the iteration) and on a second solver sharing the operator object; operator probed "
-                   "with a fixed vector before/after compute() and after every step of the pre-history. 3000 (quick) triples over 17 configurations.",
+                   "with a fixed vector before/after compute() and after every step of the pre-history; every sampled case run again alone in a fresh process (digest comparison with the run inside the worker's sequence). 3000 (quick) triples over 17 configurations.",
         design_ref="DESIGN.md section 3, C06",
         level_note=NOTE_COMMON + " Davidson / PartialSVD reuse is covered by C15 / C16.",
         technique="runtime history checker (bitwise snapshot comparison, operator probe), ASan+UBSan build; valgrind memcheck on the same driver"),
@@ -87,14 +88,16 @@ TEXT = {
         technique="exhaustive fault injection at the operator wrapper with bitwise baseline comparison, ASan+LSan build"),
     "C20": dict(
         level_text="Exploration over schedules under ThreadSanitizer: 36 (quick) / ~1000 (thorough) launches of 2..16 threads running permuted task lists over all solver configurations with private and "
-                   "shared-const operators and injected yields; zero TSan reports and bitwise agreement with sequential results; overlap of task executions is measured and reported.",
+                   "shared-const operators (Sym, Herm and Gen product wrappers) and injected yields; zero TSan reports and bitwise agreement with sequential results; overlap of task executions is measured and reported. "
+                   "Every case is run again alone in a fresh process and its digest compared with the one produced inside the worker's sequence (which starts with a prelude of much larger problems): hidden process-wide state.",
         design_ref="DESIGN.md section 3, C20",
         level_note=NOTE_COMMON,
         technique="ThreadSanitizer + bitwise concurrent-vs-sequential comparison over randomized thread launches"),
     "C07": dict(
         level_text="Exploration with an online invariant checker installed at the guarded hook: ~100000 (quick) hook events per run over solver runs of 11 configurations (every spectral transformation "
                    "and inner product) and over the Arnoldi/Lanczos classes driven directly through restart sequences (exact and arbitrary, single and double shifts); each event is judged against an "
-                   "independently built dense extended-precision model of the iterated operator; clean-domain seeded exploration + fixed corpus over the finding-prone domain.",
+                   "independently built dense extended-precision model of the iterated operator; 1-3 init sessions per solver object and a hand-over event when compute() returns (k = ncv and all invariants); "
+                   "clean-domain seeded exploration + fixed corpus over the finding-prone domain.",
         design_ref="DESIGN.md sections 3 (C07) and 4",
         level_note=NOTE_COMMON + " The checker reads the factorization through the guarded friend declaration; hooks are additive and off without SPECTRA_VERIF.",
         technique="online trace checker at guarded hook points (invariant assertions against an extended-precision reference model), ASan+UBSan build"),
